@@ -91,6 +91,49 @@ def u_b_roundtrip(ctx):
     modeb.run_shapes(ctx, "bvmat", shapes, body)
 
 
+SM = "pybrops/core/mat/DenseScaledMatrix.py"
+
+
+@unit(P, "B[DenseScaledMatrix: unscale == mat*scale+location, transform/untransform inverse, non-in-place forms leave the stored state alone]",
+      "B", bounded=True, targets=[SM + ":DenseScaledMatrix.unscale", SM + ":DenseScaledMatrix.untransform", SM + ":DenseScaledMatrix.transform"],
+      note="bounded(shape): <=3 rows x <=2 columns; stored values, location and (positive) scale symbolic reals")
+def u_b_scaled(ctx):
+    def body(e, shape, tag):
+        from pybrops.core.mat.DenseScaledMatrix import DenseScaledMatrix as C
+        n, t = shape
+        M = barr.fresh("m", (n, t), "float64")
+        loc = barr.fresh("loc", (t,), "float64")
+        sc = barr.fresh("sc", (t,), "float64")
+        for k in range(t):
+            e.assume(R(sc[k]) > 0)
+        obj = C(mat=M, location=loc, scale=sc)
+        fr = modeb.Frame(m=obj.mat, loc=obj.location, sc=obj.scale)
+        want = [[R(M[i, k]) * R(sc[k]) + R(loc[k]) for k in range(t)] for i in range(n)]
+
+        def is_raw(a):
+            return z3.And(*[R(a[i, k]) == want[i][k] for i in range(n) for k in range(t)])
+        u1 = obj.unscale(inplace=False)
+        e.prove(tag + ":unscale(inplace=False)==mat*scale+location", is_raw(u1))
+        e.prove(tag + ":unscale(inplace=False):frame:stored-matrix-location-scale-untouched", fr.unchanged() and u1 is not obj.mat)
+        u2 = obj.unscale(inplace=False)
+        e.prove(tag + ":unscale(inplace=False) twice gives the same values", is_raw(u2))
+        X = barr.fresh("x", (n, t), "float64")
+        fx = modeb.Frame(x=X)
+        tr = obj.transform(X, copy=True)
+        e.prove(tag + ":transform(copy=True)==(x-location)/scale",
+                z3.And(*[R(tr[i, k]) * R(sc[k]) == R(X[i, k]) - R(loc[k]) for i in range(n) for k in range(t)]))
+        back = obj.untransform(tr, copy=True)
+        e.prove(tag + ":untransform(transform(x))==x", modeb.eq(back, X))
+        e.prove(tag + ":transform/untransform(copy=True):frame:argument-and-stored-state-untouched", fx.unchanged() and fr.unchanged())
+        e.prove(tag + ":canary:unscale-is-identity", z3.And(*[R(u1[i, k]) == R(M[i, k]) for i in range(n) for k in range(t)]), expect="fail", timeout_ms=2000)
+        # in-place form: afterwards the object describes the raw values with location 0 and scale 1
+        u3 = obj.unscale(inplace=True)
+        e.prove(tag + ":unscale(inplace=True)==raw, location 0, scale 1",
+                z3.And(is_raw(obj.mat), *[z3.And(R(obj.location[k]) == 0, R(obj.scale[k]) == 1) for k in range(t)]) if u3 is obj.mat else False)
+        return "ok"
+    modeb.run_shapes(ctx, "scaled", [(1, 1), (2, 1), (2, 2), (3, 1)], body)
+
+
 from pyvc import oarr, loopcut
 from pyvc.oarr import OArr, same
 from pyvc.sym import fresh_int
